@@ -24,8 +24,17 @@ func Rerun(h *History, scratch, label string) (*History, error) {
 	}
 	out := &History{Seed: h.Seed, Genesis: h.Genesis, Blocks: h.Blocks, WatchA: h.WatchA, WatchH: h.WatchH,
 		StrTab: h.StrTab, OptTab: h.OptTab, Stats: map[string]int{}, Keys: h.Keys}
-	for _, b := range h.Blocks {
-		o := n.RunBlock(b)
+	out.Blocks = nil
+	for _, b0 := range h.Blocks {
+		// the EVM effects handed to the model are observed again on this node
+		b := *b0
+		b.Txs = nil
+		for _, t := range b0.Txs {
+			c := *t
+			b.Txs = append(b.Txs, &c)
+		}
+		out.Blocks = append(out.Blocks, &b)
+		o := n.runBlockObserving(&b, h.WatchA)
 		out.Obs = append(out.Obs, o)
 		if o.BeginPanic != "" || o.EndPanic != "" || o.CommitPanic != "" {
 			out.Err = "panic: " + o.BeginPanic + o.EndPanic + o.CommitPanic
